@@ -8,9 +8,10 @@ import (
 
 func init() {
 	register(&Property{ID: "C15", Run: runC15,
-		Explain: "rpcQueue decided as lock/condition-variable discipline plus gates: (R15.1) every access to the queue, the closed flag and the two slices of the priority queue happens with queueMu held exclusively (callers' lock state propagated to the priorityQueue methods); (R15.2) each cond.Wait sits in a loop whose condition re-tests the queue length, the closed flag is re-tested after every wake-up, and every Signal/Broadcast on the queue's conditions is issued with queueMu held — including the context.AfterFunc cancellation callback (this closes the check-then-wait window); (R15.3) enqueues happen only in push behind the false edge of Len()==maxSize, Len counts both classes, ErrQueueFull is returned exactly on full && !block; (R15.4) a successful push signals dataAvailable, a successful Pop signals spaceAvailable, Close sets closed and broadcasts on both; (R15.5) push tests closed on entry and after each wait and never enqueues on the closed edge, Pop returns ErrQueueClosed on the closed edges, ErrQueueCancelled on the Done edge and polls Done before every wait; (R15.6) the writer loop leaves on any Pop error and never pushes; (R15.7) queue shape: both classes append at the tail and dequeue index 0, Pop serves the urgent class first. With R15.1 every operation's effect lies in one critical section, so linearizability reduces to the sequential slice code. NOT decided: fairness between waiters; the sequential behaviour beyond the shape rules.",
+		Explain: "rpcQueue decided as lock/condition-variable discipline plus gates: (R15.1) every access to the queue, the closed flag and the two slices of the priority queue happens with queueMu held exclusively (callers' lock state propagated to the priorityQueue methods); (R15.2) each cond.Wait sits in a loop whose condition re-tests the queue length, the closed flag is re-tested after every wake-up, and every Signal/Broadcast on the queue's conditions is issued with queueMu held — including the context.AfterFunc cancellation callback (this closes the check-then-wait window); (R15.3) enqueues happen only in push behind the false edge of Len()==maxSize, Len counts both classes, ErrQueueFull is returned exactly on full && !block; (R15.4) a successful push signals dataAvailable, a successful Pop signals spaceAvailable, Close sets closed and broadcasts on both; (R15.5) push tests closed on entry and after each wait and never enqueues on the closed edge, Pop returns ErrQueueClosed on the closed edges, ErrQueueCancelled on the Done edge and polls Done before every wait; (R15.6) the writer loop leaves on any Pop error and never pushes; (R15.7) queue shape: both classes append at the tail and dequeue index 0, Pop serves the urgent class first. With R15.1 every operation's effect lies in one critical section, so linearizability reduces to the sequential slice code. R15.5 also: the cancellation callback Broadcasts (a Signal may wake a Pop whose context is still live). NOT decided: fairness between waiters; the sequential behaviour beyond the shape rules.",
 		Assume:  []string{"sync.Cond/Mutex semantics", "context.AfterFunc runs its callback in its own goroutine after cancellation"},
 		Mutants: []Mutant{
+			{Name: "cancel-callback-signals-one", File: "rpc_queue.go", Old: "\t\tq.queueMu.Lock()\n\t\tq.dataAvailable.Broadcast()\n\t\tq.queueMu.Unlock()\n", New: "\t\tq.queueMu.Lock()\n\t\tq.dataAvailable.Signal()\n\t\tq.queueMu.Unlock()\n", Expect: "R15.5"},
 			{Name: "afterfunc-broadcast-unlocked", File: "rpc_queue.go", Old: "\t\tq.queueMu.Lock()\n\t\tq.dataAvailable.Broadcast()\n\t\tq.queueMu.Unlock()\n", New: "\t\tq.dataAvailable.Broadcast()\n", Expect: "R15.2"},
 			{Name: "close-flag-outside-lock", File: "rpc_queue.go", Old: "func (q *rpcQueue) Close() {\n\tq.queueMu.Lock()\n\tdefer q.queueMu.Unlock()\n\n\tq.closed = true\n", New: "func (q *rpcQueue) Close() {\n\tq.closed = true\n\tq.queueMu.Lock()\n\tdefer q.queueMu.Unlock()\n\n", Expect: "R15.1"},
 			{Name: "pop-wait-if-instead-of-loop", File: "rpc_queue.go", Old: "\tfor q.queue.Len() == 0 {\n\t\tselect {", New: "\tif q.queue.Len() == 0 {\n\t\tselect {", Expect: "R15.2"},
@@ -251,6 +252,32 @@ func runC15(c *RuleCtx) {
 		}
 		// the AfterFunc registration precedes the wait loop and is undone on exit
 		c.Check(len(p.Sites(f, false, "context.AfterFunc")) == 1, "R15.5", f.Name, "cancellation callback registered", f.Decl, "context.AfterFunc", "no cancellation callback: a Pop blocked in Wait would not notice cancellation")
+		// the callback wakes every waiting Pop: with several Pops waiting on different contexts a Signal may wake one
+		// whose context is still live; it goes back to waiting and the cancelled one never returns
+		for _, cs := range p.Sites(f, false, "context.AfterFunc") {
+			if len(cs.Call.Args) != 2 {
+				continue
+			}
+			var cb *Func
+			if fl, ok := unparen(cs.Call.Args[1]).(*ast.FuncLit); ok {
+				cb = p.FuncOf[fl]
+			} else if v := p.R(f).Val(cs.Call.Args[1]); v != nil && (v.Kind == "func" || v.Kind == "funclit") {
+				if v.Kind == "funclit" {
+					if fl, ok := v.Node.(*ast.FuncLit); ok {
+						cb = p.FuncOf[fl]
+					}
+				} else {
+					cb = p.Fn(v.Name)
+				}
+			}
+			if cb == nil || cb.Body == nil {
+				c.Undecided("R15.5", f.Name, "cancellation callback wakes every waiter", cs.Call, "the callback handed to context.AfterFunc could not be resolved")
+				continue
+			}
+			cg := p.Graph(cb)
+			ok, _ := cg.MustPass(cg.Entry(), PassOpts{}, func(n ast.Node) bool { return p.nodeCondOp(cb, n, "rpcQueue.dataAvailable", "Broadcast") })
+			c.Check(ok, "R15.5", f.Name, "cancellation callback wakes every waiter", cs.Call, "Broadcast on dataAvailable on every path of the callback", "the cancellation callback does not Broadcast on dataAvailable (a Signal wakes one waiter, which need not be the Pop whose context was cancelled): with several Pops waiting, the cancelled one can stay blocked")
+		}
 	}
 	if f := c.MustFn("R15.4", "(*rpcQueue).Close"); f != nil {
 		g := p.Graph(f)
